@@ -41,6 +41,15 @@ def c16_run(pid, tier):
 def c17_run(pid, tier):
     import c17_extra
     engines = default_run(pid, tier)
+    # the alloc-without-std build has its own to_dyn! definition: run the aliasing engine there too
+    binary, _ = common.build_props("libm")
+    res = common.run_engine(binary, pid, "quick", tag="-alloc-only")
+    if res.get("signal"):
+        raise Machinery("aliasing engine died in the alloc-only build")
+    for e in res["engines"]:
+        e["name"] += "[alloc-only]"
+        e["rule"] = "(rrtk built with alloc but without std: Ptr and RcRefCell variants, the alloc-only to_dyn! definition) " + e["rule"][:300]
+        engines.append(e)
     engines.append(c17_extra.downstream())
     engines.append(c17_extra.threads(tier))
     return engines
@@ -101,6 +110,22 @@ def c09_run(pid, tier):
     return engines
 
 
+def dual_run(pid, tier):
+    """engines in the default build and again with dimension checking compiled out (same keys:
+    the property does not depend on the configuration, so neither does the verdict)"""
+    engines = default_run(pid, tier)
+    binary, _ = common.build_props("std-nocheck")
+    res = common.run_engine(binary, pid, "quick", tag="-nocheck")
+    if res.get("signal"):
+        raise Machinery("engine died with signal %d in the unchecked build" % res["signal"])
+    for e in res["engines"]:
+        e["name"] += "[std-nocheck]"
+        e["rule"] = "(same engine, quick bounds, rrtk built WITHOUT dimension checking) " + e["rule"][:200]
+        e["samples"] = e["samples"][:1]
+        engines.append(e)
+    return engines
+
+
 def spec(level, extra_assume=None, run=default_run):
     return {"level": level, "assumptions": COMMON_ASSUME + (extra_assume or []), "run": run}
 
@@ -132,59 +157,59 @@ TABLE = {
         "parsed by an independent INVERSE_/PER/SQUARED/CUBED grammar"]),
     "C14": spec("exploration", [
         "State::update judged against v+a*dt and p+v*dt+a*dt^2/2 computed in f64 with forward-error bound (bit-exact "
-        "where every evaluation order is exact); dt = 0 compared as values (-0 == +0)"]),
+        "where every evaluation order is exact); dt = 0 compared as values (-0 == +0)"], run=dual_run),
     "C18": spec("exploration", [
         "conversion bounds are checked in exact integer arithmetic (i128) on the f32 bit pattern",
-        "integer operators are only exercised on operand pairs that do not overflow i64"]),
+        "integer operators are only exercised on operand pairs that do not overflow i64"], run=dual_run),
     "C06": spec("model_checking", [
         "phase boundaries t1..t3 are read from the derived Debug output of MotionProfile and cross-checked by "
         "bisection on get_piece (public API)",
-        "grid values only for states and limits; query instants as listed in the rule"]),
+        "grid values only for states and limits; query instants as listed in the rule"], run=dual_run),
     "C07": spec("model_checking", [
         "tolerances: 8 x (f32 epsilon x magnitudes involved (peak speed, |a|*T, positions, speed*T) + 2 ns x rate), "
         "calibrated on the unchanged tree: worst observed error is below 8% of the 16x tolerance on 1.2e6 profiles",
         "mirror pairs negate the end acceleration as well (the physical mirror image)",
-        "'comfortably feasible' = |dp| >= 1.05 (d_acc + d_dec) + 1e-3 (|p0|+|p1|) + 1e-6 with both speeds inside the limit"]),
+        "'comfortably feasible' = |dp| >= 1.05 (d_acc + d_dec) + 1e-3 (|p0|+|p1|) + 1e-6 with both speeds inside the limit"], run=dual_run),
     "C20": spec("model_checking", [
         "whether the inner settable is still updated after it rejected a set is not constrained",
         "the stand-alone CommandPID of the PID-wrapper oracle is the real one (validated by C11), fed through a "
-        "ConstantGetter over a shared clock exactly like the wrapper's own wiring"]),
+        "ConstantGetter over a shared clock exactly like the wrapper's own wiring"], run=dual_run),
     "C08": spec("model_checking", [
         "step-local oracle: the states read at the device's terminals immediately before update() are taken as the "
-        "measurements; projection computed in f64 with forward-error bound (exact where the arithmetic is dyadic)"]),
+        "measurements; projection computed in f64 with forward-error bound (exact where the arithmetic is dyadic)"], run=dual_run),
     "C13": spec("model_checking", [
         "ties (equal newest timestamps) accept any newest issued command, including one sitting in the own slot of "
         "the external terminal on that side",
-        "mapped values may differ from value*ratio resp. value/ratio by 2 ulp"]),
+        "mapped values may differ from value*ratio resp. value/ratio by 2 ulp"], run=dual_run),
     "C15": spec("model_checking", [
         "clock values and offsets stay far from i64 overflow (the property excludes overflowing combinations)",
         "the order in which GetterFromHistory::update updates history and time getter is not constrained"]),
     "C12": spec("model_checking", [
         "EWMA lambda is judged with the power function of the build under test called directly by the harness "
         "(plus the change a 2-ulp different dt would induce); the recursion is judged step-locally against the real previous output",
-        "timestamps are non-decreasing as the property states; f32 and Quantity variants must agree within 2 ulp"]),
+        "timestamps are non-decreasing as the property states; f32 and Quantity variants must agree within 2 ulp"], run=dual_run),
     "C10": spec("model_checking", [
         "reference sums/differences in f64 with running forward-error bound; bit equality only where certified exact",
         "intervals are judged as the crate computes them ((ns as f32)/1e9), so an interval such as 2.25 s, whose "
-        "nanosecond count needs 25 bits, is not treated as exact"]),
+        "nanosecond count needs 25 bits, is not treated as exact"], run=dual_run),
     "C11": spec("model_checking", [
         "what get() returns between an input error and the next present sample when a different command is set in "
         "between is left open (error or absent both accepted)"]),
     "C04": spec("model_checking", [
         "reference PID computed in f64 with a running forward-error bound; bit equality is demanded only where a "
         "certificate shows every evaluation order to be exact in f32 (dyadic alphabet), otherwise 8x the bound",
-        "the composed controller updates all its inner streams on every round (assembly by the harness after examples/pid.rs)"]),
+        "the composed controller updates all its inner streams on every round (assembly by the harness after examples/pid.rs)"], run=dual_run),
     "C02": spec("model_checking", [
         "corners the documentation leaves open are accepted both ways: first operand absent with second erroring "
         "(difference/quotient/exponent), absent input with failing time getter (expirer), and/or timestamps "
-        "(newest of all present inputs or newest of the deciding ones)"]),
+        "(newest of all present inputs or newest of the deciding ones)"], run=dual_run),
     "C03": spec("model_checking", [
         "equal timestamps: any candidate that no other candidate is strictly newer than is accepted",
         "the table of Datum operator impls is cross-checked against a scan of /repo/src/datum.rs at run time"]),
     "C05": spec("model_checking", [
         "the per-stream reset policy table (which of absent/error is a reset, which streams ignore absent samples) is "
         "transcribed from the crate's documentation and property statement",
-        "behaviour of freeze after an erroring or absent condition until the next false condition is left open"]),
+        "behaviour of freeze after an erroring or absent condition until the next false condition is left open"], run=dual_run),
     "C09": spec("model_checking", [
         "link structure is observed through the public getters only (own states are distinct powers of two so "
         "a mean identifies the partner exactly)"], run=c09_run),
